@@ -19,6 +19,7 @@ import (
 	"encoding/binary"
 	"fmt"
 	"io"
+	"math"
 )
 
 // Header is either an HTTP header or meta-data pertaining to the request or response.
@@ -101,7 +102,13 @@ func (r *Reader) ReadFrame() (Frame, error) {
 		nl := binary.BigEndian.Uint32(lens[:4])
 		vl := binary.BigEndian.Uint32(lens[4:])
 
-		nv := make([]byte, int(nl+vl))
+		// The lengths come from the wire: add them without wrapping and refuse
+		// what cannot be a slice length on every platform.
+		if uint64(nl)+uint64(vl) > math.MaxInt32 {
+			return nil, fmt.Errorf("marbl: header frame too large: name %d + value %d bytes", nl, vl)
+		}
+
+		nv := make([]byte, int(nl)+int(vl))
 		if _, err := io.ReadFull(r.r, nv); err != nil {
 			return nil, err
 		}
@@ -130,6 +137,10 @@ func (r *Reader) ReadFrame() (Frame, error) {
 
 		dl := binary.BigEndian.Uint32(desc[5:])
 
+
+		if dl > math.MaxInt32 {
+			return nil, fmt.Errorf("marbl: data frame too large: %d bytes", dl)
+		}
 
 		data := make([]byte, int(dl))
 		if _, err := io.ReadFull(r.r, data); err != nil {
